@@ -36,6 +36,24 @@ def _class(t, k):
     return ",".join(tags) or "plain"
 
 
+def apalache(work: str) -> dict:
+    """Apa_Alloc.tla: the transcribed allocators are fresh for EVERY subset of a 24-number range (symbolic, 2^24 sets)."""
+    import subprocess
+    import time
+    out = os.path.join(work, "apa_alloc")
+    t0 = time.time()
+    try:
+        p = subprocess.run(["apalache-mc", "check", "--init=Init", "--inv=Inv", "--length=0", "--out-dir=" + out, "Apa_Alloc.tla"],
+                           cwd=E.SPEC, stdout=subprocess.PIPE, stderr=subprocess.STDOUT, text=True, timeout=600)
+    except (subprocess.TimeoutExpired, FileNotFoundError) as e:
+        return {"ran": False, "reason": type(e).__name__}
+    ok = "The outcome is: NoError" in p.stdout
+    if not ok and "outcome is: Error" in p.stdout:
+        raise E.MachineryError("Apalache refuted an invariant of Apa_Alloc.tla: the allocator transcription is wrong or transcribes a defect:\n"
+                               + "\n".join(p.stdout.splitlines()[-12:]))
+    return {"ran": True, "all_subsets_fresh": ok, "wall_s": round(time.time() - t0, 1)}
+
+
 def run(rep: E.Report, work: str, selftest: bool = False, replay: dict | None = None) -> dict:
     thorough = E.tier() == "thorough"
     depth, maxrel = (4, 2) if thorough else (3, 1)
@@ -101,7 +119,8 @@ def run(rep: E.Report, work: str, selftest: bool = False, replay: dict | None = 
         missing = [k for k in KINDS if not per.get(k)]
         if missing:
             raise E.MachineryError("vacuous: no history for allocator %s" % missing)
-    return {"alloc_histories_replayed": len(traces), "alloc_allocations_judged": tot["allocs"], "alloc_histories_per_kind": per,
+    apa = apalache(work) if not replay else {"ran": False, "reason": "replay"}
+    return {"alloc_apalache": apa, "alloc_histories_replayed": len(traces), "alloc_allocations_judged": tot["allocs"], "alloc_histories_per_kind": per,
             "alloc_tlc_distinct": r.distinct if r else 0, "alloc_depth": depth, "alloc_max_releases": maxrel,
             "alloc_actions": r.coverage_counts() if r else {},
             "alloc_rule": "for each of the 7 allocators TLC enumerates every subset of a universe of pre-existing identifiers (gaps, zero, a "
